@@ -442,14 +442,15 @@ class Engine:
         raise Unsupported(f"truth of {type(v).__name__}")
 
     # ---- function execution ----
-    def run(self, qualname, p, args, kwargs=None):
-        """execute function `qualname` on path p; returns list of finished paths (ctl = ('ret', v) | ('raise', e))"""
+    def run(self, qualname, p, args, kwargs=None, closure=None):
+        """execute function `qualname` on path p; returns list of finished paths (ctl = ('ret', v) | ('raise', e));
+        `closure`: free variables of a nested function (name -> value)"""
         f = self.funcs[qualname]
         saved = (self.cur_func,)
         self.cur_func = qualname
         self.loop_ord[qualname] = 0
         p.stack.append((p.env, p.types))
-        p.env, p.types = {}, f.types
+        p.env, p.types = dict(closure or {}), f.types
         self.bind_params(f, p, args, kwargs or {})
         body = f.tree.body
         outs = self.block(body, [p])
@@ -1738,6 +1739,13 @@ class Engine:
         if not e.keys:
             return [(p, Opaque(("dict", next(self.counter))))]
         raise Unsupported("dict literal")
+
+    def e_Yield(self, e, p):
+        out = []
+        for q, v in (self.ev(e.value, p) if e.value is not None else [(p, NONE)]):
+            q.ghost.setdefault("yields", []).append(v)
+            out.append((q, NONE))
+        return out
 
     def e_Lambda(self, e, p):
         return [(p, Opaque("lambda"))]
